@@ -65,6 +65,18 @@ CLAIMED = {
              "0 -> TIMED_OUT, 1 -> TRUE; getters return the field their setter writes; socket()/accept() descriptors get close-on-exec on "
              "every success path. " + DECIDES % "C10",
         technique="guard dataflow with dominance of the closed check, scenario flows (non-blocking would-block, successful creation), term evaluation of the poll timeout, field-agreement of getters/setters"),
+    "C06": dict(
+        text="Rules C06.1-C06.4 on psemaphore-posix.c: name typestate in the create path (exclusive create first; never a plain open of a name "
+             "just unlinked; every creating open passes the requested initial value; CREATE mode on an existing name unlinks and "
+             "re-creates, OPEN mode neither unlinks nor creates), ownership flag only where the handle created the name or took "
+             "ownership, close always / unlink only when owner, acquire/release wiring with exact result mapping, key identity. " + DECIDES % "C06",
+        technique="path-sensitive typestate over the IPC name (unknown/exists/absent) with guard facts on mode and errno; wiring and who-writes-field checks"),
+    "C07": dict(
+        text="Rules C07.1-C07.5 on pshm-posix.c: mmap parameters (MAP_SHARED, offset 0, shm_open descriptor, size field, protection by "
+             "perms); creator/follower split (ftruncate only by the creator, follower size from fstat on every path to the mapping, owner "
+             "flag, unlink only when owner); descriptor closed exactly once on every path; lock semaphore on the same key with value 1 and "
+             "CREATE iff creator, lock/unlock wiring; the field munmap uses as length equals the mapped length and is frozen while mapped. " + DECIDES % "C07",
+        technique="path-sensitive typestate (descriptor open/closed, role creator/follower, size provenance) with guard facts; frozen-field rule between mmap and munmap"),
 }
 
 NOT_YET = "check not yet armed (framework under construction); see DESIGN.md section 4 for the planned structural clauses"
